@@ -1338,7 +1338,10 @@ def remove_redundant_else(source: str) -> str:
         ranges = [core.get_charnos(child, source) for child in node.orelse]
         start = min((s for (s, _) in ranges))
         end = max((e for (_, e) in ranges))
-        last_else = list(re.finditer("(?<![^\\n]) *else: *\\n?", source[:start]))[-1]
+        else_matches = list(re.finditer("(?<![^\\n]) *else *: *\\n?", source[:start]))
+        if not else_matches:
+            continue
+        last_else = else_matches[-1]
         indent = len(re.findall("^ *", last_else.group())[0])
         modified_orelse = " " * indent + re.sub("(?<![^\\n])    ", "", source[start:end]).lstrip()
 
